@@ -36,7 +36,7 @@ func (te *TypeEnv) structName(t types.Type) string {
 	if n, ok := t.(*types.Named); ok {
 		s := n.Obj().Name()
 		if n.Obj().Pkg() != nil {
-			s = n.Obj().Pkg().Name() + "." + s
+			s = n.Obj().Pkg().Path() + "." + s
 		}
 		if ta := n.TypeArgs(); ta != nil && ta.Len() > 0 {
 			var as []string
@@ -254,7 +254,13 @@ func (te *TypeEnv) zeroOfSort(sort string, t types.Type) Term {
 			}
 		}
 		ez := te.zeroOfSort(e, et)
-		return Term{fmt.Sprintf("((as const %s) %s)", sort, ez.S), sort}
+		// cvc5 wants a literal value (not a defined constant) as the element of a constant array
+		lit := strings.NewReplacer(
+			"nil_iface", "(mkiface 0 0)",
+			"nil_slice", "(mkslice 0 #x0000000000000000 #x0000000000000000 #x0000000000000000)",
+			"empty_str", "(mkstr ((as const (Array (_ BitVec 64) (_ BitVec 8))) #x00) #x0000000000000000 #x0000000000000000)",
+		).Replace(ez.S)
+		return Term{fmt.Sprintf("((as const %s) %s)", sort, lit), sort}
 	case strings.HasPrefix(sort, "S_"):
 		if t != nil {
 			if st, ok := unalias(t).Underlying().(*types.Struct); ok {
